@@ -274,8 +274,61 @@ def reuse_discipline(prog, R, sim, al, a, free):
     backs = [d for d in ga.nodes if d.kind in ('assign', 'decl') and any(x['k'] == 'mcall' and SX.short(x['callee']) == 'back' and SX.is_this_member(SX.strip(x.get('obj')), free)
                                                                  for x in SX.walk(d.e if d.kind == 'assign' else d.e.get('init')))]
     resets = [c for c in ga.calls(lambda e: R.is_sim_call(e, (sim['reset'].short,)))]
-    ok = bool(pops) and bool(backs) and all(ga.must_follow(p, resets) for p in pops) and all(ga.must_precede(backs, p) for p in pops)
+    # the free list is a multiset of released indices: allocation removes exactly the element it hands out.  The only element write
+    # that does so is swap-and-pop — `*it = list.back(); list.pop_back();` with `it` the position the index was read from; any other
+    # write to an element overwrites a released index with one that stays in the list (one index lost, another handed out twice)
+    def rooted_in_free(e):
+        e = SX.strip(e)
+        hops = 0
+        while SX.is_node(e) and hops < 6:
+            hops += 1
+            if SX.is_this_member(e, free):
+                return True
+            k = e.get('k')
+            if k == 'mcall':
+                e = SX.strip(e.get('obj'))
+            elif k in ('index', 'member'):
+                e = SX.strip(e.get('base'))
+            elif k == 'opcall' and e.get('args'):
+                e = SX.strip(e['args'][0])
+            elif k == 'un' and e.get('op') == '*':
+                e = SX.strip(e['e'])
+            elif k == 'ref':
+                d = [v for v in SX.walk(a.body, into_lambdas=False) if v['k'] == 'var' and v['id'] == e.get('id')]
+                i0 = d[0].get('init') if d else None
+                if SX.is_node(i0) and any(SX.is_this_member(y, free) for y in SX.walk(i0)):
+                    return True
+                return False
+            else:
+                return False
+        return False
+    elem_writes = []
+    stmts_flat = [x for x in SX.walk(a.body, into_lambdas=False) if x.get('k') == 'block']
+    for n_, l, r, op in ga.writes():
+        l0 = SX.strip(l)
+        if SX.is_this_member(l0, free) or not rooted_in_free(l0):
+            continue
+        fine = False
+        r0 = SX.strip(r)
+        if op == '=' and SX.is_node(r0) and r0.get('k') == 'mcall' and SX.short(r0.get('callee', '')) == 'back' and SX.is_this_member(SX.strip(r0.get('obj')), free) \
+                and not (SX.is_node(l0) and l0.get('k') == 'mcall'):
+            # next statement pops; the index was read from the same position before
+            for blk in stmts_flat:
+                for i_, st in enumerate(blk['body']):
+                    if st.get('k') == 'expr' and st.get('e') is n_.e and i_ + 1 < len(blk['body']):
+                        nx = SX.strip(blk['body'][i_ + 1].get('e')) if blk['body'][i_ + 1].get('k') == 'expr' else None
+                        popped = SX.is_node(nx) and nx.get('k') == 'mcall' and SX.short(nx.get('callee', '')) == 'pop_back' and SX.is_this_member(SX.strip(nx.get('obj')), free)
+                        read_before = any(SX.show(SX.strip(w_[1])) == SX.show(l0) for b_ in blk['body'][:i_] for y in SX.walk(b_, into_lambdas=False)
+                                          for w_ in [SX.write_target(y)] if w_) or \
+                            any(v['k'] == 'var' and SX.is_node(v.get('init')) and SX.show(SX.strip(v['init'])) == SX.show(l0) for b_ in blk['body'][:i_] for v in SX.walk(b_, into_lambdas=False))
+                        fine = popped and read_before
+        elem_writes.append((n_, fine, SX.show(l0)[:40]))
+    backs = [d for d in backs if not any(d is w_[0] for w_ in elem_writes)]
+    ok = bool(pops) and (bool(backs) or any(f_ for _, f_, _ in elem_writes)) and all(ga.must_follow(p, resets) for p in pops) and all(ga.must_precede(backs, p) for p in pops if backs)
     out = [('reuse-resets', a, ok, 'a reused index is read from the free list, popped, and reset in the simulator before it is handed out')]
+    badw = [t for _, f_, t in elem_writes if not f_]
+    out.append(('free-list-multiset', a, not badw, 'allocation removes exactly the element it hands out; an element of the free list is overwritten (%s) outside a swap-and-pop of the '
+                'position the index was read from: a released index is lost and another is handed out twice' % badw))
     # the two sources of an index are exclusive: either popped or freshly allocated
     al_calls = [c for c in ga.calls(lambda e: R.is_sim_call(e, (al.short,)))]
     excl = bool(al_calls) and bool(pops) and not any(c.id in ga.reachable(pops) for c in al_calls) and not any(p.id in ga.reachable(al_calls) for p in pops)
